@@ -175,6 +175,76 @@ def scenario_solver(env, cfg):
     env.reach()
 
 
+def scenario_toplevel(env, cfg):
+    """solve_poisson_equation / solve_laplace_equation: a field is returned only if it solves the discrete problem; a problem
+    whose linear solve fails is reported as an error (linear algebra = the same non-deterministic stubs)"""
+    import pde
+    from scipy import sparse
+    from scipy.sparse.linalg import MatrixRankWarning
+
+    B._prepare(env.sym)
+    grid, geom = X.make_grid(env, dict(B.GRIDS[cfg["grid"]], geometry="dyadic"))
+    flux = cfg.get("flux", 1)
+    spec = {ax: ("periodic" if grid.periodic[i] else {"derivative": flux}) for i, ax in enumerate(grid.axes)}
+    n = int(np.prod(grid.shape))
+    laplace_only = cfg.get("laplace_equation", False)
+    rhs = np.zeros(grid.shape, dtype=object if env.sym else float) if laplace_only else env.array("rhs", grid.shape, -4, 4)
+    cand1 = env.array("spsolve", (n,), -64, 64)
+    cand2 = env.array("lsmr", (n,), -64, 64)
+    rank_warning = env.real("rankwarn", 0, 1)
+
+    def spsolve(mat, b, *a, **k):
+        if env.is_true(rank_warning > 0.5):
+            warnings.warn("singular", MatrixRankWarning, stacklevel=1)
+            raise MatrixRankWarning("singular")
+        return np.array(cand1, copy=True)
+
+    def lsmr(mat, b, *a, **k):
+        return (np.array(cand2, copy=True),)
+
+    modname = {"CartesianGrid": "cartesian", "UnitGrid": "cartesian", "PolarSymGrid": "polar_sym", "SphericalSymGrid": "spherical_sym", "CylindricalSymGrid": "cylindrical_sym"}[grid.__class__.__name__]
+    mod = importlib.import_module(f"pde.backends.scipy.operators.{modname}")
+    lap_mod = importlib.import_module("pde.pdes.laplace")
+    real_general = mod.make_general_poisson_solver
+
+    def wrapped_general(matrix, vector, method="auto"):
+        return real_general(_MatWrap(matrix), _MatWrap(vector), method)
+
+    saved_sf = lap_mod.ScalarField
+    if env.sym:
+        # the result field is allocated as float64 by the function under test: object dtype for the symbolic run
+        def _sf(grid, data="zeros", **kw):
+            kw.setdefault("dtype", object)
+            return saved_sf(grid, data, **kw)
+
+        lap_mod.ScalarField = _sf
+    orig = (sparse.linalg.spsolve, sparse.linalg.lsmr)
+    sparse.linalg.spsolve, sparse.linalg.lsmr = spsolve, lsmr
+    mod.make_general_poisson_solver = wrapped_general
+    raised = False
+    res = None
+    try:
+        if laplace_only:
+            res = pde.solve_laplace_equation(grid, spec)
+        else:
+            f = pde.ScalarField(grid, np.array(rhs, copy=True), dtype=object if env.sym else float)
+            res = pde.solve_poisson_equation(f, spec)
+    except RuntimeError:
+        raised = True
+    finally:
+        sparse.linalg.spsolve, sparse.linalg.lsmr = orig
+        mod.make_general_poisson_solver = real_general
+        lap_mod.ScalarField = saved_sf
+    env.observe("raised", raised)
+    if not raised:
+        out = pde.ScalarField(grid, np.array(res.data, copy=True), dtype=object if env.sym else float)
+        lap = out.apply_operator("laplace", bc=spec, backend="numba", **({"conservative": True} if modname == "spherical_sym" else {}))
+        for i in range(n):
+            env.prove(f"toplevel:laplace(returned-field)=rhs-to-solver-accuracy:cell{i}", abs(lap.data.flat[i] - rhs.flat[i]) <= 1e-5 + 1e-5 * (abs(rhs.flat[i]) + 4 * abs(flux) * 64) + 1e-6)
+    env.prove("toplevel:returns-a-field-or-raises-RuntimeError", raised or res is not None)
+    env.reach()
+
+
 def cases(tier, seed):
     q = tier == "quick"
     out = []
@@ -190,6 +260,10 @@ def cases(tier, seed):
         for rot in (0, 3) if q else range(4):
             out.append({"name": f"solver-logic:{gname}:rot{rot}", "scenario": "scenario_solver", "cfg": {"grid": gname, "rot": rot}})
         out.append({"name": f"solver-logic:{gname}:pure-neumann", "scenario": "scenario_solver", "cfg": {"grid": gname, "rot": 0, "neumann": True}})
+    # (c) the public functions on pure-Neumann problems with a net boundary flux (solvable only for compatible sources)
+    for gname in ("cart1", "cart2", "sph:hole") if q else ("cart1", "cart2", "polar:hole", "sph:hole", "sph:nohole", "cyl:hole"):
+        out.append({"name": f"toplevel:poisson:{gname}:neumann-flux", "scenario": "scenario_toplevel", "cfg": {"grid": gname}})
+        out.append({"name": f"toplevel:laplace:{gname}:neumann-flux", "scenario": "scenario_toplevel", "cfg": {"grid": gname, "laplace_equation": True}})
     return out
 
 
